@@ -95,3 +95,9 @@ Example C19_her_outputs_equal :
   run_hist F1 her_w (left_run her_pes) = run_hist F1 her_w (right_run her_pes) /\
   length (run_hist F1 her_w (left_run her_pes)) = 2.
 Proof. split; vm_compute; reflexivity. Qed.
+
+(* further library operations written as programs and tied by per-call facts: the user-level VecNormalize transforms,
+   predict() on Dict observations (copy, then reshape the copy), the rollout buffer's add / compute / get / reset *)
+Theorem C19_more_programs_disciplined : extra_components_disciplined = true.
+Proof. vm_compute. reflexivity. Qed.
+Print Assumptions C19_more_programs_disciplined.
